@@ -232,7 +232,7 @@ pub static PROFILE: Profile = Profile {
     raw,
     build,
     check,
-    budget: Budget { r_cases: (2000, 30000), s_cases: (300, 3000), s_scheds: (8, 32) },
+    budget: Budget { r_cases: (4000, 30000), s_cases: (600, 3000), s_scheds: (8, 32) },
     liveness: true,
     enumerate: Some(enumerate),
     extra: None,
